@@ -55,8 +55,10 @@ PACKS = {
     "fold": dict(fold=True),
     # an involutive equivalence (letter swap) as an *expansion* strategy: the same two-way rule arrives in both directions
     "swapexp": dict(swapexp=True),
+    # a verification strategy that counts through a specification found with its own pack (the library's default get_terms)
+    "pvpack": dict(prefix_verified_bypack=2),
 }
-OPT_IN = {"fold", "swapexp"}
+OPT_IN = {"fold", "swapexp", "pvpack"}
 # packs whose point is a statistics mechanism always run with statistics; the cycle symmetry needs three letters
 PACK_STATS = {"fold": "s0", "trim": "s2", "trimsym": "s2", "rename": "s2", "mono": "s1", "trimonly": "s2", "trimrename": "s2", "hidden": "s1"}
 PACK_EXTRA_PATTERNS = {"fold": [("aa", "bb"), ("ab", "ba"), ("aba", "bab"), ("aab", "bba")], "trim": [("ba",), ("aa", "ab"), ("ab",)], "trimsym": [("ba",)], "mono": [("ba",)],
